@@ -44,10 +44,10 @@ def FlagInv (k : Option Nat) (W0 W : Nat) (fs : List FieldDesc) : Prop :=
   | some j => (fs.take j).all (fun f => f.flag.isNone) = true
 
 mutual
-theorem rt_val (R : Registry) (gz : Bytes → Option Bytes) (hR : WFR R) :
+theorem rt_val (R : Registry) (gz : Bytes → Option Bytes) (dp : Nat) (hR : WFR R) :
     ∀ (v : Val) (ty : Ty) (bs rest : Bytes) (hs : List Ty) (fuel : Nat),
       WT R ty v → encVal R v = .ok bs → need v ≤ fuel →
-      ∃ v', decVal R gz fuel ty (bs ++ rest) hs = .ok (v', rest, hs) ∧ erase v' = erase v
+      ∃ v', decVal R gz dp fuel ty (bs ++ rest) hs = .ok (v', rest, hs) ∧ erase v' = erase v
   | .word n, ty, bs, rest, hs, fuel, hwt, henc, hf => by
     simp only [need] at hf
     obtain ⟨f, rfl⟩ : ∃ f, fuel = f + 1 := ⟨fuel - 1, by omega⟩
@@ -112,7 +112,7 @@ theorem rt_val (R : Registry) (gz : Bytes → Option Bytes) (hR : WFR R) :
     · rename_i body hbody
       cases henc
       have hcount := encList_length R items body (WTL_big R e items hitems) hbody
-      obtain ⟨items', hdec, her⟩ := rt_list R gz hR items e body rest hs (f + 1) hitems hbody (by omega)
+      obtain ⟨items', hdec, her⟩ := rt_list R gz dp hR items e body rest hs (f + 1) hitems hbody (by omega)
       refine ⟨.vec false items', ?_, by simp [erase, her]⟩
       have h1 := popUint_le crcVector (leBytes items.length 4 ++ body ++ rest) (by decide)
       have h2 := popUint_le items.length (body ++ rest) hlen
@@ -153,12 +153,12 @@ theorem rt_val (R : Registry) (gz : Bytes → Option Bytes) (hR : WFR R) :
             exact hwf.1.1.2
         have hcrc := popUint_le d.id (body ++ rest) hidlt
         rcases hty with rfl | ⟨nm, rfl, himpl⟩
-        · obtain ⟨fs', hdec, her⟩ := rt_fields R gz hR fs d.fields (flagWord d.fields fs) 0 d.flagIndex body rest hs (f + 1)
+        · obtain ⟨fs', hdec, her⟩ := rt_fields R gz dp hR fs d.fields (flagWord d.fields fs) 0 d.flagIndex body rest hs (f + 1)
             hfields (flagWord_lt _ _) hinv hbody (by omega)
           refine ⟨.obj d.id fs', ?_, by simp [erase, her, hid]⟩
           simp only [List.append_assoc, decVal, hfind, hkind, hcrc, ne_eq, not_true_eq_false, if_false,
             decStruct, hwf, Bool.not_true, Bool.false_eq_true, hdec]
-        · obtain ⟨fs', hdec, her⟩ := rt_fields R gz hR fs d.fields (flagWord d.fields fs) 0 d.flagIndex body rest hs f
+        · obtain ⟨fs', hdec, her⟩ := rt_fields R gz dp hR fs d.fields (flagWord d.fields fs) 0 d.flagIndex body rest hs f
             hfields (flagWord_lt _ _) hinv hbody (by omega)
           refine ⟨.obj d.id fs', ?_, by simp [erase, her, hid]⟩
           have hfind' : R.find d.id = some d := by rw [hid]; exact hfind
@@ -170,10 +170,10 @@ theorem rt_val (R : Registry) (gz : Bytes → Option Bytes) (hR : WFR R) :
       · cases henc
       · cases henc
 
-theorem rt_list (R : Registry) (gz : Bytes → Option Bytes) (hR : WFR R) :
+theorem rt_list (R : Registry) (gz : Bytes → Option Bytes) (dp : Nat) (hR : WFR R) :
     ∀ (items : List Val) (e : Ty) (bs rest : Bytes) (hs : List Ty) (fuel : Nat),
       WTL R e items → encList R items = .ok bs → needL items ≤ fuel →
-      ∃ items', decItems R gz fuel e items.length (bs ++ rest) hs = .ok (items', rest, hs) ∧
+      ∃ items', decItems R gz dp fuel e items.length (bs ++ rest) hs = .ok (items', rest, hs) ∧
         eraseL items' = eraseL items
   | [], e, bs, rest, hs, fuel, hwt, henc, hf => by
     simp only [encList] at henc; cases henc
@@ -188,8 +188,8 @@ theorem rt_list (R : Registry) (gz : Bytes → Option Bytes) (hR : WFR R) :
       split at henc
       · rename_i b hb
         cases henc
-        obtain ⟨v', hv, hev⟩ := rt_val R gz hR v e a (b ++ rest) hs f hwt.1 ha (by omega)
-        obtain ⟨vs', hvs, hevs⟩ := rt_list R gz hR vs e b rest hs f hwt.2 hb (by omega)
+        obtain ⟨v', hv, hev⟩ := rt_val R gz dp hR v e a (b ++ rest) hs f hwt.1 ha (by omega)
+        obtain ⟨vs', hvs, hevs⟩ := rt_list R gz dp hR vs e b rest hs f hwt.2 hb (by omega)
         refine ⟨v' :: vs', ?_, by simp [eraseL, hev, hevs]⟩
         simp only [List.length_cons, decItems, List.append_assoc, hv, hvs]
       · cases henc
@@ -197,11 +197,11 @@ theorem rt_list (R : Registry) (gz : Bytes → Option Bytes) (hR : WFR R) :
     · cases henc
     · cases henc
 
-theorem rt_fields (R : Registry) (gz : Bytes → Option Bytes) (hR : WFR R) :
+theorem rt_fields (R : Registry) (gz : Bytes → Option Bytes) (dp : Nat) (hR : WFR R) :
     ∀ (vs : List Val) (fs : List FieldDesc) (W W0 : Nat) (k : Option Nat) (bs rest : Bytes) (hs : List Ty) (fuel : Nat),
       WTF R W fs vs → W < 2 ^ 32 → FlagInv k W0 W fs →
       encFields R W k fs vs = .ok bs → needL vs ≤ fuel →
-      ∃ vs', decFields R gz fuel k W0 fs (bs ++ rest) hs = .ok (vs', rest, hs) ∧ eraseL vs' = eraseL vs
+      ∃ vs', decFields R gz dp fuel k W0 fs (bs ++ rest) hs = .ok (vs', rest, hs) ∧ eraseL vs' = eraseL vs
   | [], fs, W, W0, k, bs, rest, hs, fuel, hwt, hW, hinv, henc, hf => by
     cases fs with
     | nil =>
@@ -255,8 +255,8 @@ theorem rt_fields (R : Registry) (gz : Bytes → Option Bytes) (hR : WFR R) :
           · rename_i c hc
             cases henc
             obtain ⟨w, hw1, hw2, hw3⟩ := hhdr (b ++ c)
-            obtain ⟨v', hv, hev⟩ := rt_val R gz hR v fd.ty b (c ++ rest) hs f hfield hb (by omega)
-            obtain ⟨vs', hvs, hevs⟩ := rt_fields R gz hR vs fs W w k' c rest hs f hrest hW hw3 hc (by omega)
+            obtain ⟨v', hv, hev⟩ := rt_val R gz dp hR v fd.ty b (c ++ rest) hs f hfield hb (by omega)
+            obtain ⟨vs', hvs, hevs⟩ := rt_fields R gz dp hR vs fs W w k' c rest hs f hrest hW hw3 hc (by omega)
             refine ⟨v' :: vs', ?_, by simp [eraseL, hev, hevs]⟩
             simp only [List.append_assoc] at hw1 hv ⊢
             simp only [hw1, Bool.false_eq_true, if_false, hv, hvs]
@@ -281,7 +281,7 @@ theorem rt_fields (R : Registry) (gz : Bytes → Option Bytes) (hR : WFR R) :
               · exact h
               · rw [hflag] at h; cases h
             subst hwW
-            obtain ⟨vs', hvs, hevs⟩ := rt_fields R gz hR vs fs w w k' c rest hs f hrest hW hw3 hc (by omega)
+            obtain ⟨vs', hvs, hevs⟩ := rt_fields R gz dp hR vs fs w w k' c rest hs f hrest hW hw3 hc (by omega)
             simp only [hw1]
             rcases hbit with h0 | h1
             · refine ⟨zeroOf fd.ty :: vs', ?_, ?_⟩
@@ -310,7 +310,7 @@ theorem rt_fields (R : Registry) (gz : Bytes → Option Bytes) (hR : WFR R) :
                 · exact h
                 · rw [hflag] at h; cases h
               subst hwW
-              obtain ⟨vs', hvs, hevs⟩ := rt_fields R gz hR vs fs w w k' c rest hs f hrest hW hw3 hc (by omega)
+              obtain ⟨vs', hvs, hevs⟩ := rt_fields R gz dp hR vs fs w w k' c rest hs f hrest hW hw3 hc (by omega)
               simp only [hw1]
               refine ⟨zeroOf fd.ty :: vs', by simp [h0, hvs], by simp [eraseL, hevs, hfield]⟩
             · cases henc
@@ -330,8 +330,8 @@ theorem rt_fields (R : Registry) (gz : Bytes → Option Bytes) (hR : WFR R) :
                   · exact h
                   · rw [hflag] at h; cases h
                 subst hwW
-                obtain ⟨v', hv, hev⟩ := rt_val R gz hR v fd.ty b (c ++ rest) hs f hfield hb (by omega)
-                obtain ⟨vs', hvs, hevs⟩ := rt_fields R gz hR vs fs w w k' c rest hs f hrest hW hw3 hc (by omega)
+                obtain ⟨v', hv, hev⟩ := rt_val R gz dp hR v fd.ty b (c ++ rest) hs f hfield hb (by omega)
+                obtain ⟨vs', hvs, hevs⟩ := rt_fields R gz dp hR vs fs w w k' c rest hs f hrest hW hw3 hc (by omega)
                 refine ⟨v' :: vs', ?_, by simp [eraseL, hev, hevs]⟩
                 simp only [List.append_assoc] at hw1 hv ⊢
                 simp only [hw1, h1, hin', Bool.false_eq_true, if_false, hv, hvs]
